@@ -94,6 +94,10 @@ def structural(ctx, rng, count, nsett):
             else:
                 ctx.traces_validated += 1
             continue
+        if inst['primal'] and s['sum_age_force_equality'] and io.get('K'):
+            ctx.count('force-equality:' + ('with-unreached-rows' if io['K'][-1][0] == '+' and any(k[0] == '0' for k in io['K']) else 'all-reached'))
+        if s['kernel_basis'] and inst['primal'] and inst['X'] is None:
+            ctx.count('kernel-basis:' + ('some-pruned' if any(not any(c[1]) for c in io['ech']['covers']) else 'none-pruned'))
         if not sm.systems_equal(io, mo):
             a, m = sm.canon_pair(io, mo)
             ctx.disagreement('structure', {'inst': inst, 'settings': s, 'mode': mode}, a, m)
@@ -132,6 +136,8 @@ def value_under(case, form, settings, covers_mode):
                 prob = cl.Problem(cl.MIN, o.T @ v, [con, a.T @ v == 1])
         return rm.solve_ecos(prob)
     except Exception as e:  # noqa: BLE001
+        if isinstance(e, RuntimeError) and 'This SAGE constraint is infeasible' in str(e) and form == 'primal':
+            return 'solved', -math.inf         # the constructor's own way of reporting an infeasible certificate problem
         return 'raised:%s:%s' % (type(e).__name__, str(e)[:60]), float('nan')
     finally:
         restore_global(old)
@@ -148,7 +154,11 @@ def audit(ctx, rng, count, nsett):
     for t in range(count):
         f = rm.gen_sig(rng, m=rng.randint(3, 5))
         n = f['n']
-        box = rm.gen_box(rng, n) if rng.random() < 0.4 else None
+        box = None
+        if rng.random() < 0.45:
+            box = rm.gen_box(rng, n) if rng.random() < 0.6 else {'lin': [[[common.frac_str(F(rng.randint(-1, 1))) for _ in range(n)], '0']]}
+            if 'lin' in box and all(F(a) == 0 for a in box['lin'][0][0]):
+                box['lin'][0][0][0] = '1'
         case = {'f': f, 'box': box}
         form = rng.choice(['primal', 'dual'])
         setts = alls if nsett >= 32 else [sm.DEFAULTS] + rng.sample(alls, nsett - 1)
@@ -193,9 +203,15 @@ def audit(ctx, rng, count, nsett):
                                   % (form, v, {k: s[k] for k in s if s[k] != sm.DEFAULTS[k]}, ref[1]),
                                   {'stream': 'audit', 'case': case, 'form': form, 'settings': s})
                 if math.isfinite(ref[1]) and v == -math.inf and form == 'primal' and not exact:
+                    # same cause as the recorded finding only if switching heuristic_reduction off ALONE restores feasibility
+                    tags = []
+                    if s['heuristic_reduction']:
+                        st2, v2 = value_under(case, form, dict(s, heuristic_reduction=False), 'auto')
+                        if st2 == 'solved' and math.isfinite(v2):
+                            tags = ['F10-heuristic-reduction-infeasible']
                     ctx.violation('options: the heuristic options %s turn a feasible conditional certificate problem (value %.6g) infeasible'
                                   % ({k: s[k] for k in s if s[k] != sm.DEFAULTS[k]}, ref[1]),
-                                  {'stream': 'audit', 'case': case, 'form': form, 'settings': s}, tags=['F10-heuristic-reduction-infeasible'])
+                                  {'stream': 'audit', 'case': case, 'form': form, 'settings': s}, tags=tags)
 
 
 def run(ctx):
@@ -214,8 +230,13 @@ def run(ctx):
             ref = value_under(e['case'], e['form'], dict(sm.DEFAULTS, heuristic_reduction=False), 'auto')
             ctx.case({'stream': 'corpus', 'entry': e['note']})
             if st_.startswith('raised') or (st_ == 'solved' and ref[0] == 'solved' and not same(v, ref[1])):
+                tags = []
+                if e.get('tag') == 'F10-heuristic-reduction-infeasible' and e['settings']['heuristic_reduction'] and v == -math.inf:
+                    st2, v2 = value_under(e['case'], e['form'], dict(e['settings'], heuristic_reduction=False), 'auto')
+                    if st2 == 'solved' and math.isfinite(v2):
+                        tags = [e['tag']]
                 ctx.violation('options (corpus %s): value %s / %r vs reference %r' % (e['note'][:40], st_, v, ref[1]),
-                              {'stream': 'corpus', 'entry': e}, tags=[e['tag']] if e.get('tag') else [])
+                              {'stream': 'corpus', 'entry': e}, tags=tags)
     audit(ctx, rng, 25 if quick else 150, 8 if quick else 32)
     if (not ctx.lean.ok or ctx.disagreements) and not ctx.violations:
         common.broken_report(ctx, 'comparison of solved values across the option lattice found no failing instance')
